@@ -39,6 +39,10 @@ CHECKS = {
                 rule=E1_RULE + ">=30 successful txs from >=5 modules and >=1 gap >= 1 day (epoch boundary)"),
     "C04": dict(tests=[e1("TestC04", "swap-batch")], assumptions=E1_ASSUME + ["requesters submit only swap requests in a block and their recipients are themselves or passive accounts, so balance changes are attributable"],
                 rule=E1_RULE + "a sender with >=2 accepted requests in one block or an accepted request that could not be executed at end-block, and >=1 two-hop request"),
+    "C17": dict(tests=[dict(func="TestC17", quick=dict(checks=16000, shards=16, timeout=900), thorough=dict(checks=400000, shards=16, timeout=7000))],
+                assumptions=["keeper-level (E3): handlers are called directly (without ValidateBasic, which could only reject more) on cache contexts of a world in which a victim owns a pending spot order, a pending perpetual order, an MTP and a leveragelp position",
+                             "governance class = every /elys.* Msg implementation in the app's interface registry that has a router handler and a string field Authority (x/parameter: Creator); MsgCreateAssetInfo and MsgAddEntry carry no authority field in this snapshot and are reported as permissionless by construction"],
+                rule="message types enumerated from the running app; payload filled by reflection with generated values (Params seeded from the module's stored params in 2/3 of the cases); authority drawn from {user, module account, other module, empty, malformed, gov+suffix}; owner class: attacker-signed update/cancel/close/claim naming the victim's ids; non-trivial = (type, bad-sender kind) pair whose message passes ValidateBasic; distinct by that pair"),
     "C18": dict(tests=[e1("TestC18", "faults")], assumptions=E1_ASSUME + ["parameters are drawn only from what each module's Validate/ValidateBasic admits"],
                 rule=E1_RULE + ">=1 block processed while a listed asset had no live price, >=1 gap >= 1 day and >=1 leveraged position opened"),
     "C19": dict(tests=[
